@@ -1153,6 +1153,14 @@ Proof.
     eapply (Hd n1 n2 (a_id t1)); [by exists t1|by exists t2].
 Qed.
 
+Lemma sublist_NoDup' {A} (l1 l2 : list A) : sublist l1 l2 → NoDup l2 → NoDup l1.
+Proof.
+  induction 1 as [|x l1 l2 Hs IH|x l1 l2 Hs IH]; intros Hn; [done| |].
+  - apply NoDup_cons in Hn as [Hx Hn]. apply NoDup_cons. split; [|auto].
+    intros Hin. apply Hx. by eapply sublist_elem_of.
+  - apply NoDup_cons in Hn as [_ Hn]. auto.
+Qed.
+
 Lemma omap_ids_sublist (f : atx → option atx) l :
   (∀ t t', f t = Some t' → a_id t' = a_id t) → sublist (map a_id (omap f l)) (map a_id l).
 Proof.
@@ -1204,7 +1212,6 @@ Proof.
   (* phase one *)
   pose proof R1 as R1'. apply refill_spec in R1' as (V1&K1&_&S1&_&B1&C1).
   eapply (refill_goods L' false (txns q) (last_rev p1) 0 fresh ∅ 0 ∅) in R1 as [G1a G1b]; eauto.
-  2:{ intros; apply lookup_empty. }
   apply elem_of_app in Ht as [Ht|Ht]; [apply elem_of_app; left; auto|].
   apply elem_of_app. right.
   (* phase two *)
@@ -1212,10 +1219,11 @@ Proof.
   assert (Hcore : ∀ a a', conv_path steps a = Some a' → core a' = core a) by apply conv_path_core.
   assert (HinR2 : ∀ a', a' ∈ R2' → ∃ a, a ∈ v2txns q ∧ core a' = core a).
   { intros a' Ha'. apply elem_of_list_omap in Ha' as (a&Ha&Hc). eauto. }
-  eapply (refill_goods L' true R2' (last_rev2 p1) 0 m1 idx1 w1) in R2 as [G2a _]; eauto.
+  set (G1 := ∅ ∪ list_to_set (flat_map a_outs (goods' L' ∅ (txns q)))) in *.
+  apply (refill_goods L' true R2' (last_rev2 p1) 0 m1 idx1 w1 G1 r2 m2 idx2 w2 R2); [| | | |exact G1b|exact Ht].
   - apply Forall_forall. intros a' (a&Ha&Hc)%HinR2. destruct (core_touch _ _ Hc) as (_&_&Hv2&_).
     rewrite Hv2. rewrite Forall_forall in Hk2. auto.
-  - eapply sublist_NoDup; [|exact Hn2]. apply omap_ids_sublist.
+  - eapply sublist_NoDup'; [|exact Hn2]. apply omap_ids_sublist.
     intros a a' Hc%Hcore. by destruct (core_touch _ _ Hc) as (_&?&_).
   - intros a' Ha'. destruct (HinR2 a' Ha') as (a&Ha&Hc). destruct (core_touch _ _ Hc) as (_&Hid&Hv2&_).
     destruct (idx1 !! a_id a') as [x|] eqn:Ex; [|done]. exfalso.
